@@ -87,15 +87,17 @@ func patchRuntime() {
 	mp := filepath.Join(*goroot, "src/internal/runtime/maps")
 
 	emit(filepath.Join(rt, "runtime2.go"), applyRules(filepath.Join(rt, "runtime2.go"), []rule{
-		{`(?m)^\tbubble  \*synctestBubble\n`, "\tbubble  *synctestBubble\n\tsimctr  uint64\n\tsimtag  uint64\n\tsimpath uint64\n\tsimkids uint64\n", 1, 0},
+		{`(?m)^\tbubble  \*synctestBubble\n`, "\tbubble  *synctestBubble\n\tsimctr  uint64\n\tsimtag  uint64\n\tsimpath uint64\n\tsimkids uint64\n\tsimlast int64\n", 1, 0},
 	}))
 	emit(filepath.Join(rt, "proc.go"), applyRules(filepath.Join(rt, "proc.go"), []rule{
-		{`(?m)^\tnewg\.startpc = fn\.fn\n`, "\tnewg.startpc = fn.fn\n\tnewg.simctr = 0\n\tnewg.simtag = 0\n\tnewg.simkids = 0\n\tnewg.simpath = 0\n", 1, 0},
+		{`(?m)^\tnewg\.startpc = fn\.fn\n`, "\tnewg.startpc = fn.fn\n\tnewg.simctr = 0\n\tnewg.simtag = 0\n\tnewg.simkids = 0\n\tnewg.simpath = 0\n\tnewg.simlast = -1\n", 1, 0},
 		{`(?m)^\t\tnewg\.bubble = callergp\.bubble\n`, "\t\tnewg.bubble = callergp.bubble\n\t\tnewg.simtag = callergp.simtag\n\t\tcallergp.simkids++\n\t\tnewg.simpath = simmix(callergp.simpath, callergp.simkids)\n", 1, 0},
 	}))
 	emit(filepath.Join(rt, "rand.go"), applyRules(filepath.Join(rt, "rand.go"), []rule{
-		{`(?m)^func rand\(\) uint64 \{\n`, "func rand() uint64 {\n\tif simSeed != 0 {\n\t\tif gp := getg(); gp.bubble != nil {\n\t\t\tgp.simctr++\n\t\t\treturn simmix(simSeed, gp.simctr)\n\t\t}\n\t}\n", 1, 0},
+		{`(?m)^func maps_rand\(\) uint64 \{\n`, "func maps_rand() uint64 {\n\tif simSeed != 0 {\n\t\tif gp := getg(); gp.bubble != nil {\n\t\t\treturn simmix(simSeed, 0x6d617073)\n\t\t}\n\t}\n", 1, 0},
+		{`(?m)^func rand\(\) uint64 \{\n`, "func rand() uint64 {\n\tif simSeed != 0 {\n\t\tif gp := getg(); gp.bubble != nil {\n\t\t\treturn simnext(gp)\n\t\t}\n\t}\n", 1, 0},
 	}))
+	// (maps_rand is patched in rand.go below together with rand)
 	emit(filepath.Join(rt, "select.go"), applyRules(filepath.Join(rt, "select.go"), []rule{
 		{`j := cheaprandn\(uint32\(norder \+ 1\)\)`, "j := simcheaprandn(uint32(norder + 1))", 1, 0},
 	}))
